@@ -160,15 +160,19 @@ Fixpoint count_tags (l : list (dyn_raw * Z)) : option Z :=
   | (t, _) :: r => if dy_null t then Some 1 else match count_tags r with Some n => Some (n + 1) | None => None end
   end.
 
+Definition has_dyn (F : file) : bool :=
+  (0 <? f_dyn_entsize F) && match count_tags (f_dyns F) with Some _ => true | None => false end.
+Definition has_symtab (F : file) : bool := 0 <? f_sym_entsize F.
+
+(* tables that the file does not have are empty *)
 Definition wf_elf (F : file) : bool :=
   (0 <? f_shentsize F) && (0 <? f_shoff F) && (f_shnum F =? zlen (f_shdrs F)) && (0 <? f_shnum F) &&
   (f_shoff F + f_shnum F * f_shentsize F <=? f_stream_len F) &&
   forallb (fun h => match str_at F (f_shstr_base F + sh_name (fst h)) with Some _ => true | None => false end) (f_shdrs F) &&
-  (0 <? f_phentsize F) &&
-  (0 <? f_sym_entsize F) &&
+  ((0 <? f_phentsize F) || match f_phdrs F with [] => true | _ => false end) &&
+  (has_symtab F || match f_syms F with [] => true | _ => false end) &&
   forallb (fun e => match str_at F (f_strtab_base F + sy_name (fst e)) with Some _ => true | None => false end) (f_syms F) &&
-  (0 <? f_dyn_entsize F) &&
-  match count_tags (f_dyns F) with Some _ => true | None => false end.
+  (has_dyn F || match f_dyns F with [] => true | _ => false end).
 
 Definition wf_file (F : file) : bool :=
   units_chain 0 (f_units F) (f_info_size F) &&
@@ -537,12 +541,14 @@ Definition valid_op (F : file) (o : op) : bool :=
       | None => false
       end
   | CFI eh => match (if eh then f_ehcfi F else f_cfi F) with Some _ => true | None => false end
-  | NewIterCUs _ | NewIterSections _ | NewIterSymbols _ | NewIterTags _ | Next _ => true
-  | ENumSections | ENumTags => true
+  | NewIterCUs _ | NewIterSections _ | Next _ => true
+  | NewIterSymbols _ | ESymbolByName _ => has_symtab F
+  | NewIterTags _ | ENumTags => has_dyn F
+  | ENumSections => true
   | ESection n => in_table n (f_shdrs F)
-  | ESectionByName _ | ESymbolByName _ => true
+  | ESectionByName _ => true
   | ESegment n => in_table n (f_phdrs F)
   | ESymbol n => in_table n (f_syms F)
   | EString off => match str_at F (f_strtab_base F + off) with Some _ => true | None => false end
-  | EGetTag n => 0 <=? n
+  | EGetTag n => has_dyn F && (0 <=? n)
   end.
